@@ -100,7 +100,16 @@ def has_integral(v):
 
 
 def overflowish(v):
-    return is_number(v) and (isinstance(v, float) and (math.isinf(v) or math.isnan(v)) or (isinstance(v, int) and abs(v) > 10 ** 300))
+    """inf / nan, or a host int too large for a double."""
+    if not is_number(v):
+        return False
+    if isinstance(v, float):
+        return math.isinf(v) or math.isnan(v)
+    try:
+        float(v)
+    except OverflowError:
+        return True
+    return False
 
 
 def same(a, b):
@@ -258,7 +267,11 @@ def check_operator(op, x, y):
             res.append((('overflow' if isinstance(e, OverflowError) else type(e).__name__), None))
     (k1, v1), (k2, v2) = res
     if 'overflow' in (k1, k2) or overflowish(v1) or overflowish(v2):
-        if (k1 == 'ok' and not overflowish(v1)) or (k2 == 'ok' and not overflowish(v2)):
+        # an overflowing computation: inf, a host int beyond the double range, an OverflowError or null (the contained
+        # error) are one equivalence class
+        def in_class(k, v):
+            return k == 'overflow' or (k == 'ok' and (overflowish(v) or v is None))
+        if not (in_class(k1, v1) and in_class(k2, v2)):
             raise Violation('operator %s overflows in one spelling only: %s / %s' % (op, _short(v1, k1), _short(v2, k2)), d, 'op-outcome:' + op)
         return True
     if k1 != k2:
